@@ -852,6 +852,9 @@ void File::uncompressedFileReadThread(File * file) {
         file->m_readWriteQueue.setFileSize(file->m_readWriteQueue.tellp());
     } catch (...) {
         file->m_uncompressedFileThreadException = std::current_exception();
+
+        /* set end of file, otherwise the application waits forever */
+        file->m_readWriteQueue.setFileSize(file->m_readWriteQueue.tellp());
     }
 }
 
@@ -870,6 +873,9 @@ void File::uncompressedFileWriteThread(File * file) {
         file->m_uncompressedFile.setFileSize(file->m_uncompressedFile.tellp());
     } catch (...) {
         file->m_uncompressedFileThreadException = std::current_exception();
+
+        /* set end of file, otherwise the next stage waits forever */
+        file->m_uncompressedFile.setFileSize(file->m_uncompressedFile.tellp());
     }
 }
 
@@ -892,6 +898,9 @@ void File::compressedFileReadThread(File * file) {
         file->m_uncompressedFile.setFileSize(file->m_uncompressedFile.tellp());
     } catch (...) {
         file->m_compressedFileThreadException = std::current_exception();
+
+        /* set end of file, otherwise the next stage waits forever */
+        file->m_uncompressedFile.setFileSize(file->m_uncompressedFile.tellp());
     }
 }
 
